@@ -53,6 +53,19 @@ def packing(avail, keys, evs):
     return bufs
 
 
+def dict_packing(avail, keys):
+    """dictionary buffers as dump_dictionary fills them (N/A entry first): list of lists of entry lengths"""
+    bufs, pos = [[]], 0
+    for cs in [0] + [k[2] for k in keys]:
+        ln = 203 + cs
+        if pos + ln >= avail:
+            bufs.append([])
+            pos = 0
+        bufs[-1].append(ln)
+        pos += ln
+    return bufs
+
+
 class C42(Check):
     id = "C42"
     prop_file = "theories/Properties/Properties_C42.v"
@@ -85,7 +98,9 @@ class C42(Check):
                  "differential run of the real writer/reader against the extracted reader and writer models on the same file bytes")
     rule = ("random dictionaries (info lengths aimed at events that exactly fill / overflow by one byte the remaining space of a "
             "buffer), 1..4 streams written sequentially or by concurrent pthreads, 1..3 pages per buffer, stream infos, "
-            "boundary ids; non-trivial = some stream spans >= 2 buffers; distinct = distinct case text")
+            "boundary ids; dictionaries of 1, 2, 3, 4+ buffers (many keys, long convertors, buffers ending one byte before the limit "
+            "or entries moved for ending exactly at it); non-trivial = some stream or the dictionary spans >= 2 buffers; "
+            "distinct = distinct case text")
     trusted = ("second PaRSEC build with -DPARSEC_PROF_TRACE=ON (default PARSEC_PROFILING_USE_MMAP / _HELPER_THREAD), rebuilt "
                "from the repository on every run; tools/profiling/dbpreader.c is compiled into the harness",
                "OCaml driver parses the profile file header (outside the model) and compares buffers")
@@ -170,6 +185,45 @@ class C42(Check):
             evs.append((sid, key, ufl, r.pick(tppool), r.pick(idpool), r.below(256) if hasinfo else None))
         return self.fmt(pages, mode, ns, keys, ninfo, evs)
 
+    def dict_case(self, r, nbuf):
+        """a dictionary that needs nbuf buffers (1, 2, 3, 4+): many keys and/or long convertors, with buffers that
+        end one byte before the limit (the entry still fits) or exactly at it (the entry moves to the next buffer)"""
+        pages = r.pick([1, 1, 1, 2])
+        avail = pages * PAGE - HDR
+        keys, style = [], r.below(3)
+        def add(clen):
+            keys.append((r.pick([3, 4, 9, 30, 63, 64]) if r.chance(1, 4) else r.range(3, 12),
+                         r.pick([6, 7, 40, 127, 128]) if r.chance(1, 4) else r.range(6, 14), clen, r.pick([0, 0, 4, 8, 16])))
+        guard = 0
+        while guard < 118:
+            guard += 1
+            b = dict_packing(avail, keys)
+            if len(b) > nbuf or (len(b) == nbuf and len(b[-1]) >= 1 + r.below(4)):
+                break
+            pos = sum(b[-1])
+            room = avail - pos - 203              # convertor length that makes the entry end exactly at avail (moves)
+            kind = r.below(8)
+            if kind == 0 and 0 <= room - 1 <= 3800:
+                add(room - 1)                     # fits with one byte to spare: the buffer ends at avail - 1
+            elif kind == 1 and 0 <= room <= 3800:
+                add(room)                         # would end exactly at avail: goes to the next buffer
+            elif style == 0:
+                add(r.pick([0, 0, 1, 20, 21]))    # many small entries (20 per one-page buffer)
+            elif style == 1:
+                add(r.range(700, 1400))           # long convertors (3 per one-page buffer)
+            else:
+                add(r.pick([0, 20, 300, 1000, 2500]))
+        while len(dict_packing(avail, keys)) > nbuf and len(keys) > 1 and nbuf > 0:
+            keys.pop()
+        nk = len(keys)
+        ns = r.range(1, 2)
+        evs = []
+        for i in range(r.range(2, 12)):
+            j = r.pick([0, nk - 1, r.below(nk)])
+            hasinfo = r.chance(1, 2)
+            evs.append((r.below(ns), 2 * (j + 1) + r.below(2), r.pick([0, 2, 4]), 7, i, r.below(256) if hasinfo else None))
+        return self.fmt(pages, 0, ns, keys, [0] * ns, evs)
+
     def flag_case(self, r):
         """PARSEC_PROFILING_EVENT_HAS_INFO with a NULL info.  The reader then misparses what follows; the cases are
         shaped so that the misparse stays inside defined behaviour (it never looks up a garbage dictionary index):
@@ -244,6 +298,9 @@ class C42(Check):
         # events that exactly fill a buffer, miss it by one byte, leave one byte
         for _ in range(14 * mult):
             out.append(self.directed_case(r))
+        # dictionaries of 1, 2, 3, 4+ buffers
+        for nb in [1, 2, 3, 3, 4, 4, r.range(4, 6)] * mult:
+            out.append(self.dict_case(r, nb))
         # the API accepts PARSEC_PROFILING_EVENT_HAS_INFO with a NULL info pointer
         for _ in range(2 * mult):
             out.append(self.flag_case(r))
@@ -278,11 +335,17 @@ class C42(Check):
             return None
         if any(len(b) >= 2 for b in bufs.values()):
             return case
+        try:
+            if len(dict_packing(avail, parse_case(case)[3])) >= 2:
+                return case
+        except Exception:
+            pass
         return None
 
     def dist(self, cases):
         d = {"cases": len(cases), "events": 0, "streams": {}, "pages": {}, "threaded": 0, "max_buffers_per_stream": 0,
-             "buffers_exactly_full": 0, "switch_with_1_byte_missing": 0, "flag_without_info": 0}
+             "buffers_exactly_full": 0, "switch_with_1_byte_missing": 0, "flag_without_info": 0,
+             "dictionary_buffers": {}, "dict_buffer_ends_at_avail_minus_1": 0, "dict_entry_moved_for_ending_at_avail": 0}
         for c in cases:
             try:
                 pages, mode, ns, keys, ninfo, evs = parse_case(c)
@@ -290,6 +353,14 @@ class C42(Check):
             except Exception:
                 continue
             d["events"] += len(evs)
+            db = dict_packing(avail, keys)
+            d["dictionary_buffers"][str(min(len(db), 4)) + ("+" if len(db) >= 4 else "")] = \
+                d["dictionary_buffers"].get(str(min(len(db), 4)) + ("+" if len(db) >= 4 else ""), 0) + 1
+            for i, lens in enumerate(db):
+                if sum(lens) == avail - 1:
+                    d["dict_buffer_ends_at_avail_minus_1"] += 1
+                if i + 1 < len(db) and sum(lens) + db[i + 1][0] == avail:
+                    d["dict_entry_moved_for_ending_at_avail"] += 1
             d["streams"][str(ns)] = d["streams"].get(str(ns), 0) + 1
             d["pages"][str(pages)] = d["pages"].get(str(pages), 0) + 1
             d["threaded"] += mode
